@@ -8,7 +8,7 @@ import pool as P
 
 def run(ctx):
     P.run_property(ctx, "C07",
-                   [(P.gen_concurrent, 60, 2500), (P.gen_faults, 40, 1200), (P.gen_shutdown, 12, 400), (P.gen_slow_peer, 3, 6), (P.gen_expiry_during_send, 3, 30)],
+                   [(P.gen_concurrent, 60, 2500), (P.gen_faults, 40, 1200), (P.gen_shutdown, 12, 400), (P.gen_slow_peer, 3, 6), (P.gen_expiry_during_send, 3, 30), (P.gen_one_per_session, 6, 60), (P.gen_failed_body_then_send, 2, 6)],
                    "2..4 senders x 1..3 sends (plus a final send) through clones of one transport, max_size 1..3, min_idle 0..3, sync and tokio pools; "
                    "seeded random delays at every pool probe point and before every server reply perturb the order of critical sections; message sizes 42 B..70 KB, 1..3 recipients; "
                    "fault histories and shutdown races included for the commit accounting.  Oracle: per-connection server transcripts are sequences of clean complete transactions, "
